@@ -40,7 +40,7 @@ func c11BuiltinLoaders(c *C) {
 	rootB := root + "-second"
 	defer os.RemoveAll(root)
 	defer os.RemoveAll(rootB)
-	kind := r.Pick([]string{"local-nobase", "local-base", "sandboxed-base", "fs", "http", "http-base", "two-local-base"})
+	kind := r.Pick([]string{"local-nobase", "local-nobase-cwd", "local-base", "sandboxed-base", "fs", "http", "http-base", "two-local-base"})
 	dirs := []string{"", "a", "a/b", "c"}
 	bases := []string{"x.tpl", "y.tpl", "z.tpl"}
 	n := 4 + r.Intn(4)
@@ -68,6 +68,11 @@ func c11BuiltinLoaders(c *C) {
 	spell := func(from, to string) string {
 		relref, _ := filepath.Rel(filepath.Dir(from), to)
 		switch kind {
+		case "local-nobase-cwd":
+			if r.Intn(3) == 0 {
+				return "./" + relref
+			}
+			return relref
 		case "local-nobase":
 			switch r.Intn(4) {
 			case 0:
@@ -211,6 +216,21 @@ func c11BuiltinLoaders(c *C) {
 		lerr = e
 		set = pongo2.NewSet("c11b", l)
 		entry = filepath.Join(root, "m.tpl")
+	case "local-nobase-cwd":
+		// no base directory and a RELATIVE entry name: resolved against the process's working directory as it is NOW - the
+		// application was in another directory (with files of the same names) when it rendered before
+		l, e := pongo2.NewLocalFileSystemLoader("")
+		lerr = e
+		set = pongo2.NewSet("c11b", l)
+		if old, werr := os.Getwd(); werr == nil && e == nil {
+			defer os.Chdir(old)
+			write(rootB, "m.tpl", "[WRONG-WORKING-DIRECTORY]")
+			os.Chdir(rootB)
+			if t0, e0 := pongo2.NewSet("c11b-before", l).FromFile("m.tpl"); e0 == nil {
+				t0.Execute(nil)
+			}
+			os.Chdir(root)
+		}
 	case "local-base":
 		l, e := pongo2.NewLocalFileSystemLoader(root)
 		if e == nil && r.Bool() {
